@@ -1353,7 +1353,7 @@ func main() {
 	}
 	nSess, nOps := 14, 14
 	if a.Thorough() {
-		nSess, nOps = 220, 24
+		nSess, nOps = 160, 24 // + 7 depth-sweep and (late sessions) 3 late-consumer operations per session
 	}
 	if a.N > 0 {
 		nSess = a.N
